@@ -233,6 +233,7 @@ class RunEnv:
                 "iteration": state.get("iteration"),
                 "beta": state.get("meta", {}).get("beta"),
                 "bytes": blob,
+                "live_state": state,
                 "n_beta": len(state["history"].beta),
                 "n_acc": len(state["history"].mcmc_acceptance),
                 "n_hist": len(state["history"].sample_history),
